@@ -13,7 +13,7 @@ demo=[f for f in os.listdir(d) if f.endswith('.rs')]
 # crate test binaries failing other than the demo itself
 failed=[l for l in log.splitlines() if re.match(r'test .* \.\.\. FAILED',l)]
 meta={
- "property": pid,
+ "property": pid[:3],
  "patch": "patch.diff",
  "demonstration": demo,
  "needs_to_manifest": needs,
@@ -21,9 +21,9 @@ meta={
    "demo_without_patch": ("pass" if m and m.group(1)=='0' else "FAIL/unknown"),
    "demo_with_patch": ("fail" if m and m.group(2)!='0' else "PASS/unknown"),
    "failed_tests_with_patch (demo tests expected; others are wall-clock flakes under load, see notes)": failed,
-   "commands": ["tools/verify_seed.sh (private CARGO_TARGET_DIR): cargo test -p <crate> --offline --test <demo> without and with patch; cargo test -p <crate> --offline --lib --tests with patch; tools/scratch.sh + ./run.sh "+pid+" quick against the patched copy"],
+   "commands": ["tools/verify_seed.sh (private CARGO_TARGET_DIR): cargo test -p <crate> --offline --test <demo> without and with patch; cargo test -p <crate> --offline --lib --tests with patch; tools/scratch.sh + ./run.sh "+pid[:3]+" quick against the patched copy"],
  },
- "check_result": {"cmd": f"./run.sh {pid} quick (scratch copy with patch applied)", "exit": int(rc.group(1)) if rc else None, "caught": bool(rc and rc.group(1)=='1' and viol), "first_violation": (viol[0][:300] if viol else None)},
+ "check_result": {"cmd": f"./run.sh {pid[:3]} quick (scratch copy with patch applied)", "exit": int(rc.group(1)) if rc else None, "caught": bool(rc and rc.group(1)=='1' and viol), "first_violation": (viol[0][:300] if viol else None)},
 }
 if after: meta["caught_only_after_strengthening"]=after
 json.dump(meta,open(f'{d}/meta.json','w'),indent=1)
